@@ -336,6 +336,10 @@ class OscArgsMatcher(AbstractMessageMatcher):
     def __call__(self, msg, time, addr, recv_port):
         args = msg[1:]
         for i, item in enumerate(self.arg_template):
+            if item is None:
+                continue
+            if i >= len(args):
+                return  # The message is shorter than the template.
             if callable(item):
                 if not item(args[i]):
                     return
